@@ -398,6 +398,23 @@ class Sim(object):
             if t.live and t.disconnecting:
                 t.report_lost()
 
+    def leaks(self):
+        """connections / connection attempts still open although the client no longer owns their broker client
+        (dropped by a full refresh, or the client was closed), or a bootstrap connection left open after the operation"""
+        out = []
+        cur = {} if self.closed else (self.client.clients or {})
+        for a in self.net.attempts:
+            f = a.factory
+            n = getattr(f, "node_id", None)
+            owned = n is not None and cur.get(n) is f
+            if owned:
+                continue
+            if a.state == "pending":
+                out.append(["pending-connect", -1 if n is None else n, host_id(a.host), a.port])
+            elif a.transport is not None and a.transport.live:
+                out.append(["open-connection", -1 if n is None else n, host_id(a.host), a.port])
+        return out
+
     def take_shuffles(self):
         new = self.shuffles[self.nshuf:]
         self.nshuf = len(self.shuffles)
@@ -879,6 +896,9 @@ class Sim(object):
             # request, and are gone afterwards
             tried = set(t[1] for t in ld["tries"] if t[0] == 0)
             gone = sorted((set(before["clients"]) | tried) - set(after["clients"])) if not self.closed else []
+            # ... and whose connection was really given up (a dropped client that keeps its connection is not "closed")
+            leaked = set(x[1] for x in self.leaks())
+            gone = [n for n in gone if n not in leaked]
             case = [1, 0 if op["topics"] else 1] + self.enc_uscript(ld) + self.enc_raw(ld["resp"])
             trace = [-7, 1] + self.emit_log(ld) + [code] + lp(gone)
             obs.update(load=ld, code=code, gone=gone, extra_loads=po["loads"][1:], notes_from=nlose0)
@@ -931,6 +951,7 @@ class Sim(object):
         if self.net.pending():
             self.monitor_notes.append(("attempt-left-pending", kind))
         obs["after"] = self.view()
+        obs["leaks"] = self.leaks()
         trace = trace + self.dump()
         rc, rt = self.reap(plan)
         obs["reaped"] = rc[1::2]
@@ -975,7 +996,14 @@ class Sim(object):
             else:
                 r = res[0]
                 trace += [1, 1, topic_id(r.topic), r.partition, r.error, r.tag]
-            return case, trace, {"pump": po, "result": res}
+            if not res:
+                result = {"kind": None}
+            elif isinstance(res[0], Failure):
+                result = {"kind": "error", "code": classify_failure(res[0]) or [-62], "repr": repr(res[0].value)[:200]}
+            else:
+                r = res[0]
+                result = {"kind": "ok", "responses": [(topic_id(r.topic), r.partition, r.error, r.tag)]}
+            return case, trace, {"pump": po, "result": result, "tags": [tag]}
         api = op["api"]
         g = op.get("group")
         gform = op.get("group_form")
